@@ -293,6 +293,21 @@ where
             };
             match (self.body)(&v, &mut obs) {
                 Ok(()) => Ok(()),
+                Err(e) if e.starts_with(GENERATOR_INVALID) => {
+                    // the generated case is outside the property's domain (it is not valid Rust even
+                    // without the library's derive): discard it, count it, keep the first for debugging
+                    if counting {
+                        let mut st = stats.borrow_mut();
+                        let n = st.classes.entry("discarded/generator_invalid".to_string()).or_default();
+                        *n += 1;
+                        if *n == 1 {
+                            let dir = verif_root().join("harness/target/infra");
+                            let _ = std::fs::create_dir_all(&dir);
+                            let _ = std::fs::write(dir.join(format!("{}-{}-discard-{}.json", ctx.prop, self.name, thread)), json!({"property": ctx.prop, "sub": self.name, "reason": e, "case": serde_json::to_value(&v).unwrap_or(Value::Null)}).to_string());
+                        }
+                    }
+                    Ok(())
+                }
                 Err(e) => {
                     failed.set(true);
                     Err(TestCaseError::fail(e))
@@ -362,6 +377,11 @@ where
                 }
             }
         }
+        // a generator that mostly misses the domain is an infrastructure problem, not a pass
+        let discarded = stats.classes.get("discarded/generator_invalid").copied().unwrap_or(0);
+        if failure.is_none() && discarded > 3 && discarded * 50 > stats.evaluations {
+            failure = Some(Failure { sub: self.name.to_string(), reason: format!("harness: the generator produced {discarded} invalid cases out of {}", stats.evaluations), case: Value::Null });
+        }
         SubResult { stats, failure }
     }
     fn replay(&self, ctx: &Ctx, case: &Value) -> Result<(), String> {
@@ -376,11 +396,15 @@ where
             want_sample: false,
         };
         match std::panic::catch_unwind(std::panic::AssertUnwindSafe(|| (self.body)(&v, &mut obs))) {
+            Ok(Err(e)) if e.starts_with(GENERATOR_INVALID) => Ok(()),
             Ok(r) => r,
             Err(p) => Err(format!("panic: {}", panic_msg(&p))),
         }
     }
 }
+
+/// prefix of a check body's error that means "this generated case is outside the domain"
+pub const GENERATOR_INVALID: &str = "generator-invalid:";
 
 pub fn panic_msg(p: &Box<dyn std::any::Any + Send>) -> String {
     if let Some(s) = p.downcast_ref::<&str>() {
